@@ -11,6 +11,7 @@ CONSTANTS N = 4
  VCBatchPolicy = "none"
  AggBatchFor = "none"
  MemoVerifier = FALSE
+ DomainCache = FALSE
  ReplayPolicy = "admit"
 INVARIANTS TypeOK OnlyValidEnter ValidEnters PeerAllOrNothing
 CHECK_DEADLOCK FALSE
